@@ -34,6 +34,7 @@ inductive Op where
 
 inductive Ret where
   | bs | null | scalar | array | fresh
+  | nan     -- the bindings with a value that cannot be serialised (0/0): the conversion of the result fails
 
 structure Prog where
   ops           : List Op
@@ -104,6 +105,7 @@ def runOps : List Op → Bs → List V → Except (Exit × Bs × List V) (Bs × 
 def timeoutMsg : String := "RuntimeError: timeout"
 def notBindingsMsg : String := "isn't Bindings"
 def badEmitMsg : String := "json: unsupported"
+def badRetMsg : String := "json: unsupported value: NaN"
 
 /-- the meaning of a program as an `ActionF` -/
 def Prog.run (p : Prog) : ActionF := fun bs =>
@@ -125,3 +127,6 @@ def Prog.run (p : Prog) : ActionF := fun bs =>
     | .array =>
       if p.native then { exe := some (some b, em), err := none }
       else { exe := none, err := some (notBindingsMsg ++ ":array") }
+    | .nan =>
+      if p.native then { exe := some (some b, em), err := none }
+      else { exe := none, err := some badRetMsg }
